@@ -1,5 +1,5 @@
 use crate::value::Value;
-use std::mem;
+use std::{cell::RefCell, fmt, mem};
 
 pub const BIT_POSITION: u32 = usize::BITS - 1;
 pub const TOP_BIT: usize = 1 << BIT_POSITION;
@@ -41,6 +41,42 @@ pub fn ptr_len<T>(start: *const T, end: *const T) -> usize {
   }
   let byte_len: usize = end_u - start_u;
   byte_len / mem::size_of::<T>()
+}
+
+/// How many objects deep does Display write the values nested in an object
+const DISPLAY_MAX_DEPTH: usize = 64;
+
+thread_local! {
+  /// The objects whose nested values Display is writing right now, outermost first
+  static DISPLAYING: RefCell<Vec<usize>> = const { RefCell::new(Vec::new()) };
+}
+
+/// Write the values nested in the object at `address` with `nested`. Display has no
+/// depth to hand down so this is where cycles in managed Gc pointers are handled. For
+/// an object that is already being written, it contains itself, or that is nested too
+/// deep `...` is written instead
+pub fn fmt_nested(
+  f: &mut fmt::Formatter<'_>,
+  address: usize,
+  nested: impl FnOnce(&mut fmt::Formatter<'_>) -> fmt::Result,
+) -> fmt::Result {
+  let enter = DISPLAYING.with(|displaying| {
+    let mut displaying = displaying.borrow_mut();
+    if displaying.len() >= DISPLAY_MAX_DEPTH || displaying.contains(&address) {
+      return false;
+    }
+
+    displaying.push(address);
+    true
+  });
+
+  if !enter {
+    return write!(f, "...");
+  }
+
+  let result = nested(f);
+  DISPLAYING.with(|displaying| displaying.borrow_mut().pop());
+  result
 }
 
 #[derive(Default, Debug)]
